@@ -217,7 +217,7 @@ def shards(tier, seed):
 
 
 HASHNAMES = ["sha1", "sha224", "sha256", "sha384", "sha512", "sha3_256", "md5", "blake2b_4", "blake2b_13", "blake2b_20", "blake2b_21",
-             "blake2b_22", "blake2b_33", "blake2b_64"]
+             "blake2b_22", "blake2b_33", "blake2b_64", "blake2b_person", "blake2s_salt", "prefixed_sha256"]
 
 
 def digest_len_class(L, baselen, nbits):
